@@ -514,3 +514,25 @@ func H_C07_strings() {
 	}
 	vReach("end")
 }
+
+//verif:witness H_C07_retained end
+//verif:bound C07 all two events formatted one after the other by the same layout with the first line retained by the caller; the buffer-reuse cap (BufferCap) is an arbitrary int32; both retained lines must still decode to their own event
+// H_C07_retained: a returned line belongs to the caller (it must survive the next formatting).
+func H_C07_retained() {
+	savedCap := BufferCap.Load()
+	BufferCap.Store(vInt32("bufferCap"))
+	defer BufferCap.Store(savedCap)
+	l := &JSONLayout{BaseLayout{FileLineLength: 48}}
+	e1 := &Event{Level: InfoLevel, Time: vFixedTime, File: "file.go", Line: 10, Tag: "_t_x", Fields: []Field{String("which", "first-event")}}
+	e2 := &Event{Level: WarnLevel, Time: vFixedTime, File: "file.go", Line: 11, Tag: "_t_x", Fields: []Field{String("which", "second"), Int("n", 2)}}
+	out1 := l.ToBytes(e1)
+	out2 := l.ToBytes(e2)
+	g1, ok1 := vParseJSONLine(out1)
+	g2, ok2 := vParseJSONLine(out2)
+	vAssert(ok1 && ok2, "both-lines-valid")
+	if ok1 && ok2 {
+		vAssert(len(g1.vals) == 5 && vEqualCPs(g1.vals[4].s, vCPs("first-event")), "first-line-still-decodes-to-the-first-event")
+		vAssert(len(g2.vals) == 6 && vEqualCPs(g2.vals[4].s, vCPs("second")), "second-line-decodes-to-the-second-event")
+	}
+	vReach("end")
+}
